@@ -103,7 +103,11 @@ Definition eng_setop (op : setop) (all : bool) (L R : rel) : rel :=
 
 Record qsem := mkQSem { q_esem : sem; q_values_empty : bool; q_setop : setop -> bool -> rel -> rel -> rel }.
 Definition sql_qsem := mkQSem sql_sem false sql_setop.
-Definition eng_qsem := mkQSem eng_sem true eng_setop.
+(* VALUES: the physical planner used to lower every VALUES node to an empty relation; repaired by
+   the `fix:` commit recorded in known_findings.txt. `eng_qsem_before_values_fix` keeps the old
+   behaviour expressible so the regression witness stays a theorem (C44). *)
+Definition eng_qsem := mkQSem eng_sem false eng_setop.
+Definition eng_qsem_before_values_fix := mkQSem eng_sem true eng_setop.
 
 (* ---------- aggregates ---------- *)
 Definition non_null (vs : list value) : list value := filter (fun v => negb (is_null v)) vs.
@@ -265,7 +269,7 @@ Section Known.
   Fixpoint known_with (q : query) : bool :=
     match q with
     | QTable _ _ => false
-    | QValues _ rows => on_class KValues && match rows with [] => false | _ => true end
+    | QValues _ rows => dom_on [[]] (concat rows)   (* class KValues itself is closed: fixed in the engine *)
     | QFilter q p => known_with q || dom_on (ev q) [p]
     | QProject q es => known_with q || dom_on (ev q) es
     | QJoin jt l r on =>
